@@ -21,7 +21,13 @@ RULE = ("exact families: the real freq_response / dft / LinearFilter.__call__ ru
         "denominator or three numerator coefficients at a frequency other than 0 and pi. enclosure family "
         "(extra): float runs, see C12_encl.RULE")
 EXHAUSTIVE = {"quick": False, "thorough": False}
-trusted_base = list(C12_encl.TRUSTED)
+trusted_base = [
+  "exact families: only the complex exponential (lazy_filters.complex_exp, lazy_analysis.cexp) is replaced, by an "
+  "exact one on rational points of the unit circle (harness/C12_util.py exact_exp); every other line of the library "
+  "runs unchanged on Gaussian rationals (class CQ absorbs int/float/complex operands exactly)",
+  "the theorems are about real / complex numbers (Coq R, Coquelicot C) and, generically, any field with an exponential "
+  "family; the float evaluation is tied only through the per-sample enclosures below and the exact float cases at w = 0",
+] + list(C12_encl.TRUSTED)
 ASSUMPTIONS = ["CPython complex arithmetic on exact operands is exact when the result is representable",
                "cmath.exp(-1j*0.0) == 1 (w = 0 float cases)"]
 
